@@ -59,6 +59,7 @@ def oracle(program, blocksize):
     shim.install('UTC')
     blocksize = blocksize or 8192
     failures = []
+    shim.set_tick(len(program['ops']) % 2 == 1)      # a moving clock in half of the cases (nothing here compares bytes across runs)
     run = Run(program)
     run.run_all()
     run.stats = {'c01_domain': 0}
